@@ -6,6 +6,8 @@ import os, re, subprocess, tempfile, shutil
 ROOT = os.path.dirname(os.path.dirname(os.path.abspath(__file__)))
 # (property, unit regex, clause regex) -> scenarios to try, in order
 TABLE = [
+    ("C09", r"solout", r"exact_zero", ["event_function_scale"]),
+    ("C08", r"solout", r"exact_zero", ["event_function_scale"]),
     ("C05", r"solout", r"teval\.", ["tiny_time_scale", "teval_terminal"]),
     ("C03", r"dispatch_A", r"zero_length|skipped", ["tiny_time_scale"]),
     ("C06", r"cont_R", r".*", ["tiny_time_scale"]),
